@@ -334,7 +334,9 @@ func aggregateRows(selectList sql.SelectList, groupBy []sql.ColumnReference, row
 	groupKey := func(row *storage.Row) string {
 		var key string
 		for _, idx := range groupIdx {
-			key += fmt.Sprintf("%v", row.Vals[idx])
+			// length-prefixed so that ('1','23') and ('12','3') differ
+			val := fmt.Sprintf("%v", row.Vals[idx])
+			key += fmt.Sprintf("%T:%d:%s;", row.Vals[idx], len(val), val)
 		}
 		return key
 	}
